@@ -2,11 +2,8 @@
 
 from __future__ import annotations
 
-from hypothesis import HealthCheck, Phase, given, seed as hseed, settings, strategies as st
-
 from vpbt import ast_checks as A, gen_programs as gp, pyexec as X
-from vpbt.core import Collector, h64, load_findings
-from vpbt.shrink_src import shrink_source
+from vpbt import prog_check as P
 
 PID = "C07"
 RULE = (
@@ -25,17 +22,6 @@ ASSUME = [
 ]
 
 
-def recorded_features():
-    """features switched off in the main search: those of recorded findings
-    (sig 'C07:mismatch:<feature>')."""
-    out = []
-    for f in load_findings(PID):
-        parts = f.sig.split(":")
-        if len(parts) == 3 and parts[1] == "mismatch" and parts[2] in gp.DEFAULT_FEATURES:
-            out.append(parts[2])
-    return sorted(set(out))
-
-
 def check_program(src, arg_idx, depth, max_runs, recorded):
     """-> (status, sig, msg, stats)"""
     feats = gp.features(src)
@@ -52,8 +38,7 @@ def check_program(src, arg_idx, depth, max_runs, recorded):
     args = [A.ARG_POOL[i % len(A.ARG_POOL)] for i in arg_idx]
     stats, mm = A.compare_behaviour(X.factory_from_source(src, "f"), X.factory_from_source(new_src, "transformed_f"), args, depth, max_runs)
     if mm:
-        tags = sorted(feats & set(recorded))
-        sig = "C07:mismatch:" + ("+".join(tags) if tags else "plain")
+        sig = P.mismatch_sig(PID, feats, recorded)
         if A.pruned_local_symptom(src, new_src, mm):
             sig = "C07:mismatch:pruned_local"
         return "fail", sig, f"behaviour differs: {mm}", stats
@@ -62,63 +47,8 @@ def check_program(src, arg_idx, depth, max_runs, recorded):
     return "ok", None, "", stats
 
 
-def run(spec):
-    _, seed, shard, examples, depth, max_runs, feats_off, probe = spec
-    col = Collector()
-    recorded = recorded_features()
-    feats = {k: False for k in feats_off}
-    if probe:
-        feats[probe] = True
-
-    @hseed(h64(("c07", seed, shard, probe)))
-    @settings(max_examples=examples, database=None, deadline=None, phases=[Phase.generate], suppress_health_check=list(HealthCheck))
-    @given(src=gp.programs(feats), arg_idx=st.lists(st.integers(0, 5), min_size=2, max_size=2, unique=True))
-    def t(src, arg_idx):
-        status, sig, msg, stats = check_program(src, arg_idx, depth, max_runs, recorded)
-        f = gp.features(src)
-        col.count("status_" + status)
-        for k in ("runs", "complete", "inconclusive"):
-            col.count("tape_" + k, stats.get(k, 0))
-        if status == "fail":
-            col.fail(sig, msg, dict(src=src, arg_idx=list(arg_idx), depth=depth, max_runs=max_runs), len(src))
-        nt = status == "ok" and "loop" in f and "if" in f
-        classes = sorted(t_ for t_ in f if not t_.startswith("depth")) + [status] + (["probe:" + probe] if probe else ["main"])
-        col.case(src, len(src), nt, sample=dict(src=src, status=status), classes=classes)
-
-    t()
-    return col.result()
+def _nontrivial(status, feats, stats):
+    return status == "ok" and "loop" in feats and "if" in feats
 
 
-def plan(tier, seed):
-    off = recorded_features()
-    specs = []
-    if tier == "quick":
-        specs += [("p", seed, s, 120, 8, 40, off, None) for s in range(16)]
-        for f in off:
-            specs += [("p", seed, 100 + s, 40, 6, 24, off, f) for s in range(2)]
-    else:
-        specs += [("p", seed, s, 1300, 12, 160, off, None) for s in range(32)]
-        for f in off:
-            specs += [("p", seed, 100 + s, 400, 8, 48, off, f) for s in range(4)]
-    return specs
-
-
-def replay(inp):
-    status, sig, msg, _ = check_program(inp["src"], inp.get("arg_idx", [0, 1]), inp.get("depth", 8), inp.get("max_runs", 40), recorded_features())
-    return [(sig, msg)] if status == "fail" else []
-
-
-def shrink(fail):
-    inp = fail["replay"]
-    sig = fail["sig"]
-
-    def still(src):
-        r = replay(dict(inp, src=src))
-        return any(s == sig for s, _ in r)
-
-    small = shrink_source(inp["src"], still)
-    if len(small) < len(inp["src"]):
-        r = [m for s, m in replay(dict(inp, src=small)) if s == sig]
-        if r:
-            fail = dict(fail, replay=dict(inp, src=small), msg=r[0], size=len(small))
-    return fail
+run, plan, replay, shrink = P.make(PID, check_program, _nontrivial)
